@@ -27,10 +27,12 @@
 (* heads, new callers, cancellations, the ticker - is free).  "Still inside    *)
 (* the call after the deadline" is therefore a state predicate.                *)
 (*                                                                             *)
-(* FixNotify / FixTimer / FixSetHead = FALSE is the protocol as implemented;   *)
-(* TRUE selects the repaired variants (notify replaces a stale unread head     *)
-(* instead of blocking; the timer is created once per call; SetMasterHead      *)
-(* publishes after releasing the connection lock).                             *)
+(* FixNotify / FixTimer / FixSetHead = TRUE is the protocol the code implements *)
+(* (notify replaces a stale unread head instead of blocking; the timer is      *)
+(* created once per call; SetMasterHead publishes after releasing the          *)
+(* connection lock).  FALSE selects the protocol before those repairs (commits *)
+(* ff488b7, 5bb5d7a, ef82c42 of /repo); it is kept because its counterexamples  *)
+(* are replayed against the code as regression leads.                          *)
 EXTENDS Naturals, Sequences, FiniteSets, TLC, PoolSelect
 
 CONSTANTS NC,          \* number of connections (configuration order 1..NC)
